@@ -32,6 +32,7 @@ def run(tier, replay=None):
     common.model_checks(v, [
         ("MC_Discovery", "MC_Discovery.cfg", {"workers": 8, "heap": "4g"}, "pass"),
         ("MC_Discovery", "XF_DiscoveryUnsync.cfg", {"workers": 4}, "fail"),
+        ("MC_Discovery", "XF_DiscoveryRearm.cfg", {"workers": 2}, "fail"),
     ])
     summ = common.harness_traces("c11", tier, shards=8, env=env, extra_args=["-x", "layouts=" + layouts], timeout=3600)
     common.validate(v, "Trace_Api", "Trace_Api.cfg", summ, key)
